@@ -17,7 +17,7 @@ UBSAN_SUPP = os.path.join(VERIF, 'ubsan.supp')
 
 MPI_ENV = {'OMPI_ALLOW_RUN_AS_ROOT': '1', 'OMPI_ALLOW_RUN_AS_ROOT_CONFIRM': '1',
            'OMPI_MCA_rmaps_base_oversubscribe': '1', 'OMPI_MCA_hwloc_base_binding_policy': 'none',
-           'OMPI_MCA_btl_vader_single_copy_mechanism': 'none'}
+           'OMPI_MCA_btl_vader_single_copy_mechanism': 'none', 'OMPI_MCA_mpi_yield_when_idle': '1'}
 
 
 class HarnessError(Exception):
